@@ -44,6 +44,12 @@ func Shrink(spec *props.Spec, j *Job) *ShrinkOut {
 	}
 	best := append([]uint32(nil), j.Tape...)
 	bestRes := try(best)
+	// Engine dial: a violation that consists of the library no longer
+	// waiting for its watcher goroutine is decided by the runtime's choice
+	// between two ready select cases; it recurs within a few attempts.
+	for i := 0; bestRes == nil && i < j.Retries; i++ {
+		bestRes = try(best)
+	}
 	if bestRes == nil {
 		out.Repro = false
 		out.GaveUp = "original tape does not reproduce the class in replay mode"
@@ -136,6 +142,9 @@ func Shrink(spec *props.Spec, j *Job) *ShrinkOut {
 	}
 	// Final re-execution for a clean, detailed result.
 	final := Exec(spec, sim.ReplayTapeCap(best, tapeCap(spec)), j.Tier, true)
+	for i := 0; (final.Viol == nil || final.Viol.Class() != j.Class) && i < j.Retries; i++ {
+		final = Exec(spec, sim.ReplayTapeCap(best, tapeCap(spec)), j.Tier, true)
+	}
 	if final.Viol == nil || final.Viol.Class() != j.Class {
 		out.Internal = "minimised tape stopped reproducing"
 		final = bestRes
